@@ -76,7 +76,10 @@ type c29Case struct {
 	Recs    []c29Rec
 	Ver     c29Version
 	Restart bool // node restarted (fresh service on the reopened file) between planting and SafeUpgrade
-	Class   string
+	// Off: the restarted node runs with one chain switched off in its configuration ("btc" | "lbtc"; needs Restart):
+	// a swap on a chain that is disabled now is still an active swap in the store
+	Off   string
+	Class string
 	Desc    string
 }
 
@@ -205,11 +208,19 @@ func (d *c29Driver) run(c *c29Case) (*c29Result, error) {
 		}
 	}
 	if c.Restart {
+		d.n.Cfg.BitcoinEnabled, d.n.Cfg.LiquidEnabled = c.Off != "btc", c.Off != "lbtc"
 		if err := d.n.Restart(sim.StartOpts{NoRecover: true}); err != nil {
 			return nil, fmt.Errorf("restart: %w", err)
 		}
 		inc = d.n.Inc()
 		db = inc.DB
+		if c.Off != "" {
+			// the next case gets a node with both chains again
+			defer func() {
+				d.n.Cfg.BitcoinEnabled, d.n.Cfg.LiquidEnabled = true, true
+				d.n.Restart(sim.StartOpts{NoRecover: true})
+			}()
+		}
 	}
 	res.Before = c29Snapshot(db)
 	if len(res.Before.swaps) != len(c.Recs) {
@@ -366,14 +377,28 @@ func TestC29(t *testing.T) {
 	for _, tab := range tables {
 		for _, st := range byTable[tab] {
 			for _, v := range versions {
-				for _, restart := range []bool{false, true} {
+				for _, mode := range []string{"", "restart", "restart-btc-off", "restart-lbtc-off"} {
+					restart, off := mode != "", ""
+					switch mode {
+					case "restart-btc-off":
+						off = "btc"
+					case "restart-lbtc-off":
+						off = "lbtc"
+					}
+					if off != "" && (v.Class == "current" || v.Class == "junk") {
+						continue // (the chain switch matters where the stored version would be replaced)
+					}
 					stName := string(st)
 					if stName == "" {
 						stName = "(initial)"
 					}
-					c := &c29Case{Recs: []c29Rec{{Base: baseByRole[tab], State: st}}, Ver: v, Restart: restart,
-						Class: fmt.Sprintf("single/%s/%s/stored=%s:%s", tab, stName, v.Class, v.Name),
-						Desc:  fmt.Sprintf("one %s record in state %s, stored version %s:%s, restart=%v", tab, stName, v.Class, v.Name, restart)}
+					offTag := ""
+					if off != "" {
+						offTag = "/" + off + "-disabled"
+					}
+					c := &c29Case{Recs: []c29Rec{{Base: baseByRole[tab], State: st}}, Ver: v, Restart: restart, Off: off,
+						Class: fmt.Sprintf("single/%s/%s/stored=%s:%s%s", tab, stName, v.Class, v.Name, offTag),
+						Desc:  fmt.Sprintf("one %s record (a Bitcoin swap) in state %s, stored version %s:%s, %s", tab, stName, v.Class, v.Name, mode)}
 					res := exec(c)
 					if res == nil {
 						continue
